@@ -152,6 +152,29 @@ def patch_library_clock():
 
 patch_library_clock()
 
+class HangDetected(Exception):
+    pass
+
+
+@contextlib.contextmanager
+def hang_guard(seconds: float):
+    """Raise HangDetected inside the block if it has not finished after `seconds` of real time (a library call that never returns is a
+    finding, not a reason for the check to sit until its wall-clock cap). Uses SIGALRM of the current (worker) process."""
+    import signal
+
+    def on_alarm(signum, frame):
+        raise HangDetected(f"no return after {seconds} s")
+    old = signal.signal(signal.SIGALRM, on_alarm)
+    old_timer = signal.setitimer(signal.ITIMER_REAL, seconds)
+    try:
+        yield
+    finally:
+        signal.setitimer(signal.ITIMER_REAL, 0)
+        signal.signal(signal.SIGALRM, old)
+        if old_timer and old_timer[0] > 0:
+            signal.setitimer(signal.ITIMER_REAL, old_timer[0])
+
+
 NPROC = min(16, os.cpu_count() or 1)
 
 
